@@ -21,7 +21,7 @@ func init() {
 	register(&Driver{
 		ID:        "C19",
 		Technique: "exhaustive input enumeration: every string up to length 7 over a 13-symbol alphabet (separators, brackets, case pair, multi-byte rune) through the real tag parser (totality), every string up to length 4 as the value of each built-in tag through a real start, and every structured tag of a grammar (value x <=3 arguments x names x <=3 bracketed/plain values) against a reference parser written from the statement (faithfulness)",
-		Rule:      "totality: all strings of length <=7 (thorough <=8) over {a,R,r,comma,=,space,[,],{,},(,),é} into NewProperty/TagVal/Args/IsRequired; all strings of length <=4 as wire / func / value / prop / prefix tag values through real starts; faithfulness: value in {'', v, [x,y], a b} x sequences of <=3 (thorough <=4) arguments over names {required, Required, qualifier, x} x {bare, 1..3 values} with values {v, false, [a b], {a,b}, (a=b c)}; non-trivial = tag with a bracketed value, a duplicate name or a required argument",
+		Rule:      "totality: all strings of length <=7 (thorough <=8) over {a,R,r,comma,=,space,[,],{,},(,),é} into NewProperty/TagVal/Args/IsRequired; all strings of length <=4 as wire / func / value / prop / prefix tag values through real starts; faithfulness: value in {'', v, [x,y], a b} x sequences of <=3 (thorough <=4) arguments over names {required, Required, qualifier, x} x {bare, 1..3 values} with values {v, false, [a b], {a,b}, (a=b c)}; non-trivial = tag with a bracketed value, a duplicate name or a required argument. Families added in later rounds (look-ups inside Init, retries after an abandoned attempt, user extension points at every Order, several containers, odd names / types / values) are listed per part in this file and described in MANIFEST.json (level_claimed.text) and DESIGN §7",
 		Assumptions: []string{
 			"faithfulness is checked on tags with balanced brackets; unbalanced ones are only required not to panic",
 			"a point is optional iff the effective required argument lists the value false",
